@@ -90,23 +90,34 @@ impl CompiledValue {
 struct TerminatorValue {
     value: CompiledValue,
     is_terminator: bool,
+    /// The value is not an IR terminator, but it is of the IR type `never`: it is the result of
+    /// a call to a function that does not return (e.g., `revert(0)`). No value is ever produced,
+    /// so it must not flow into a store, an aggregate initializer, or an argument of some other
+    /// type; everything that would consume it is unreachable.
+    diverges: bool,
 }
 
 impl TerminatorValue {
     pub fn new(value: CompiledValue, context: &Context) -> Self {
+        let is_terminator = value.is_terminator(context);
         Self {
             value,
-            is_terminator: value.is_terminator(context),
+            is_terminator,
+            diverges: !is_terminator
+                && value
+                    .get_type(context)
+                    .is_some_and(|ty| ty.is_never(context)),
         }
     }
 }
 
-/// If the provided [TerminatorValue::is_terminator] is true, then return from the current function
-/// immediately. Otherwise extract the embedded [Value].
+/// If the provided [TerminatorValue::is_terminator] is true, or the value diverges
+/// ([TerminatorValue::diverges]), then return from the current function immediately: the rest
+/// of the enclosing expression is never evaluated. Otherwise extract the embedded [Value].
 macro_rules! return_on_termination_or_extract {
     ($value:expr) => {{
         let val = $value;
-        if val.is_terminator {
+        if val.is_terminator || val.diverges {
             return Ok(val);
         };
         val.value
@@ -4099,6 +4110,7 @@ impl<'a> FnCompiler<'a> {
                             TerminatorValue {
                                 value: CompiledValue::InRegister(v),
                                 is_terminator: false,
+                                diverges: false,
                             }
                         }
                     }
@@ -4544,6 +4556,7 @@ impl<'a> FnCompiler<'a> {
             name,
             body,
             mutability,
+            return_type: var_type_id,
             ..
         } = ast_var_decl;
         // Nothing to do for an abi cast declarations. The address specified in them is already
@@ -4563,7 +4576,7 @@ impl<'a> FnCompiler<'a> {
         // accessed and isn't present in the environment.
         let init_val = self.compile_expression_to_register(context, md_mgr, body);
 
-        let return_type = convert_resolved_type_id(
+        let mut return_type = convert_resolved_type_id(
             self.engines,
             context,
             md_mgr,
@@ -4572,6 +4585,24 @@ impl<'a> FnCompiler<'a> {
             body.return_type,
             &body.span,
         )?;
+
+        // If the initializer is of type `!` (e.g., `let x: u64 = revert(0);`), the type checker
+        // gives the variable the type of its type ascription, and the (unreachable) code that
+        // uses the variable later on is typed accordingly. The local variable must have
+        // that same type. Without a type ascription the variable's type stays `!`.
+        if return_type.is_never(context) {
+            if let Ok(var_type) = convert_resolved_type_id(
+                self.engines,
+                context,
+                md_mgr,
+                self.module,
+                Some(self),
+                *var_type_id,
+                &body.span,
+            ) {
+                return_type = var_type;
+            }
+        }
 
         let mutable = matches!(mutability, ty::VariableMutability::Mutable);
         let local_name = self.lexical_map.insert(name.as_str().to_owned());
@@ -4586,6 +4617,31 @@ impl<'a> FnCompiler<'a> {
         if val.is_terminator {
             return Ok(Some(val));
         };
+
+        // The initializer does not return (e.g., it is a call to `revert`): there is no value
+        // to store into the variable. The code that follows is unreachable, but it is still
+        // compiled, and a variable that lives in a register must be defined before it is loaded,
+        // so it gets a correctly typed undefined value.
+        if val.diverges {
+            let var_ty = local_var.get_type(context);
+            if var_ty.is_copy_type(context)
+                && !var_ty.is_never(context)
+                && !var_ty.is_zero_sized(context)
+            {
+                let undef = Constant::unique(context, ConstantContent::get_undef(var_ty));
+                let undef_val = Value::new_constant(context, undef);
+                let local_ptr = self
+                    .current_block
+                    .append(context)
+                    .get_local(local_var)
+                    .add_metadatum(context, span_md_idx);
+                self.current_block
+                    .append(context)
+                    .store(local_ptr, undef_val)
+                    .add_metadatum(context, span_md_idx);
+            }
+            return Ok(None);
+        }
 
         // We can have empty aggregates, especially arrays, which shouldn't be initialized, but
         // otherwise use a store.
